@@ -123,4 +123,29 @@ def expectedShares (g : GrantSnap) : Nat :=
   let milli := if portion == 0 then 1000 * g.exclusive.length else portion.toNat
   Nri.K8s.milliCPUToShares milli
 
+/-- C13: the policy state after re-applying an unchanged configuration is the state before it:
+same pools with the same free CPU sets and counters, same grants (pool, class, exclusive CPUs,
+portions); memory zones are reported under a class of their own. -/
+def unchangedInv (a b : Snap) : List String :=
+  let same (x y : List Nat) : Bool := x.all (y.contains ·) && y.all (x.contains ·)
+  let errs : List String := []
+  let errs := if a.pools.length != b.pools.length then errs ++ ["C13:unchanged-config-changed-policy-state pool-count"] else errs
+  let errs := a.pools.foldl (fun errs p =>
+    match b.pools.find? (·.name == p.name) with
+    | none => errs ++ [s!"C13:unchanged-config-changed-policy-state pool {p.name} disappeared"]
+    | some q =>
+      if !(same p.freeIsolated q.freeIsolated && same p.freeSharable q.freeSharable && p.grantedShared == q.grantedShared && p.grantedReserved == q.grantedReserved
+           && same p.isolated q.isolated && same p.sharable q.sharable && same p.reserved q.reserved && p.parent == q.parent) then
+        errs ++ [s!"C13:unchanged-config-changed-policy-state pool {p.name}: free {p.freeIsolated}/{p.freeSharable} counters {p.grantedShared}/{p.grantedReserved} -> {q.freeIsolated}/{q.freeSharable} {q.grantedShared}/{q.grantedReserved}"]
+      else errs) errs
+  let errs := if a.grants.length != b.grants.length then errs ++ ["C13:unchanged-config-changed-policy-state grant-count"] else errs
+  a.grants.foldl (fun errs g =>
+    match b.grants.find? (·.ctr == g.ctr) with
+    | none => errs ++ [s!"C13:unchanged-config-changed-policy-state grant of {g.ctr} disappeared"]
+    | some h =>
+      let errs := if !(g.pool == h.pool && g.cpuType == h.cpuType && same g.exclusive h.exclusive && g.cpuPortion == h.cpuPortion
+                       && g.sharedPortion == h.sharedPortion && g.reservedPortion == h.reservedPortion) then
+        errs ++ [s!"C13:unchanged-config-changed-policy-state grant of {g.ctr}: {g.pool} {g.exclusive} {g.cpuPortion} -> {h.pool} {h.exclusive} {h.cpuPortion}"] else errs
+      if g.grantZone != h.grantZone then errs ++ [s!"C13:unchanged-config-changed-memory-zone {g.ctr}: {g.grantZone} -> {h.grantZone}"] else errs) errs
+
 end Nri.TA
